@@ -257,7 +257,7 @@ Section StepNf.
         apply bind_nf; [destruct vt; try discriminate; apply set_value_nf|]. intros v' _.
         destruct (hashable k'); [|discriminate]. apply Nre. eapply lt8_consume; [exact L| |lia].
         eapply psuffix_trans_l; [exact E2|apply psuffix_suffix; exact E]. }
-      destruct k; try exact X. discriminate.
+      exact X.
     - destruct er; try discriminate. destruct bs as [|t r]; [discriminate|]. destruct (t =? g_endFlag); discriminate.
   Qed.
 
